@@ -712,6 +712,7 @@ def run(tier: str, seed: int, replay=None) -> int:
         "harness/c15.py: schema extraction from the Python classes (descriptor class hierarchy, inverse, TransitiveProperty, role taker), case builders through the public API, canonicaliser (objects and fields numbered)",
         "rustworkx PyDiGraph (out_edges/in_edges return snapshots), CPython list/set",
     ]
+    rep.trusted.append("source pins pins/onto.json (pin set pins/sets/onto.json): the normalised source of the 57 methods the hand models Onto/Closure.v and Onto/Container.v mirror is compared on every run; an edit reopens the correspondence obligation")
     rep.assume = [
         "single-valued fields receive at most one value in the closure (generator rejects other histories); role takers are fixed at construction",
         "container assignment only onto an empty field (assignment onto a non-empty field is retraction, which the graph does not do)",
@@ -726,6 +727,8 @@ def run(tier: str, seed: int, replay=None) -> int:
     ok_spec, log = core.coq_make(["Base/Sx.vo", "Onto/ClosureSpec.vo"])
     rep.oblige("build:spec", ok_spec, "" if ok_spec else core.first_error(log))
     model_ok = core.standard_proof_steps(rep, PROP, ["Props/C15.vo"])
+    from translator import pins
+    pins.oblige(rep, str(core.REPO), "onto", "the hand model Onto/Closure.v (add_to_graph, infer_*, update_value, the write paths and SymbolGraph.add_relation / relation lookups)")
     if not ok_spec:
         return rep.finish()
 
